@@ -414,7 +414,10 @@ def spec_match(spec_line, impl_obs):
 
 
 def l1_ok(plug, case, impl_line, spec_line):
-    if not spec_match(spec_line, obs(impl_line)):
+    # a plug-in may supply its own reading of the spec line for some kinds of case (e.g. C19's build without flock())
+    sm = plug.spec_match(case, spec_line, obs(impl_line)) if hasattr(plug, "spec_match") \
+        else spec_match(spec_line, obs(impl_line))
+    if not sm:
         return False
     if hasattr(plug, "l1_extra"):
         return bool(plug.l1_extra(case, obs(impl_line)))
